@@ -358,6 +358,13 @@ impl<const D: bool> SimShim<D> {
                         }
                         if r.write_row {
                             if let Err(e) = api!("write_row", rw.write_row(cells.iter().map(CellVal))) {
+                                if force_end
+                                    && e.kind() == io::ErrorKind::InvalidData
+                                    && matches!(&r.recover, Some((crate::model::CARRY_ON, _)))
+                                {
+                                    // a shim that skips a bad record and carries on
+                                    continue 'rows;
+                                }
                                 row_err = Some(e);
                                 break 'rows;
                             }
@@ -425,7 +432,7 @@ impl<const D: bool> SimShim<D> {
                             // report the failure to the client instead of propagating it; only
                             // refusals of the value/shape are recovered from: a transport
                             // error handed to the application is propagated like `?` would
-                            Some((kind, msg)) if e.kind() == io::ErrorKind::InvalidData => {
+                            Some((kind, msg)) if e.kind() == io::ErrorKind::InvalidData && *kind != crate::model::CARRY_ON => {
                                 let m = msg.to_vec();
                                 api!("finish_error", rw.finish_error(errkind(*kind), &m))?;
                                 return Ok(());
